@@ -25,7 +25,7 @@ impl StarkDomains {
         requires
             log_trace_domain_size@ + log_n_cosets@ <= 192, // [C18:domains-new-needs-exponent<=192]
         ensures
-            domains_ok(&r, log_trace_domain_size@, log_n_cosets@), // [C01,C02,C12:sizes-and-generators-as-specified]
+            domains_ok(&r, log_trace_domain_size@, log_n_cosets@), // [C01,C02,C12,C18:sizes-and-generators-as-specified]
     {
         proof {
             lemma_pow2_251_lt_p();
